@@ -89,8 +89,8 @@ template <class T> static int enc_rk(const unsigned char *key, size_t klen, cons
     T obj; unsigned char tmp[64]; bool zero = true; for (size_t i = 0; i < klen; i++) if (key[i]) zero = false;
     if (!obj.set_key(OTHER, klen)) return -1000;
     obj.set_nonce(OTHER, 16); obj.encrypt(tmp, OTHER, 9, 0, 0);
+    obj.set_nonce(nonce, 16);                      /* the nonce is set BEFORE the new key: set_key is documented to leave it as it is */
     if (!(zero ? obj.set_key(key, 0) : obj.set_key(key, klen))) return -1001;
-    obj.set_nonce(nonce, 16);
     return obj.encrypt(c, m, mlen, ad, adlen);
 }
 extern "C" int cpp_encrypt_rekey(int family, int alg, const unsigned char *key, const unsigned char *nonce,
